@@ -522,8 +522,9 @@ class Session:
             self.ents[i]["alive"] = False
             self.kept.pop(i, None)
 
-    def apply(self, op):
-        """-> {"res":…, "auto":…, "stamps":…}  canonicalised like the driver's output"""
+    def apply(self, op, observe=True):
+        """-> {"res":…, "auto":…, "stamps":…}  canonicalised like the driver's output (observe=False: the operation is
+        performed, the file is not read afterwards)"""
         nix = _nix()
         name = op[0]
         args = op[-1] if isinstance(op[-1], dict) else {}
@@ -566,6 +567,9 @@ class Session:
             out["res"] = "done"
             self.last_views = self.last_views_kept
             return out
+        if not observe:
+            self.last_out = None
+            return {"res": res, "auto": bool(self.f.auto_update_timestamps), "stamps": None}
         out = {"res": res, "auto": bool(self.f.auto_update_timestamps), "stamps": self.stamps()}
         self.last_out = out
         self.last_views_kept = []
@@ -1360,7 +1364,10 @@ def scene_ops(clock, auto, copies=False):
     """a small file with every entity kind; indices: 1 block, 2/3 sections, 4/5/6 arrays, 7 frame, 8 tag, 9 multi tag
     (positions 4), 10 group, 11 source, 12 property (of 2), 13 feature of 8 (data 5), 14 feature of 9 (data 6),
     15 a second block with 16 array, 17 source, 18 tag (the "entities of another block" of refused calls)"""
-    c = lambda kind, parent, **a: ["create", kind, parent, "good", a]
+    # ("scene": the oracle does not read the whole file after each of these creations - the same scene is built at
+    # the head of some sixty histories; the sweep and the random histories observe every creation, as does the
+    # correspondence)
+    c = lambda kind, parent, **a: ["create", kind, parent, "good", dict(a, scene=True)]
     return [["open", clock, auto],
             c("block", 0, name="b", type="t"), c("section", 0, name="s1", type="t"),
             c("section", 0, name="s2", type="t"), c("data_array", 1, name="a1", type="t"),
@@ -1883,7 +1890,11 @@ def oracle_roundtrip(ctx, n):
     return len(ts), fails
 
 
-def check_history(ctx, ops, tag):
+def is_scene(op):
+    return op[0] == "create" and isinstance(op[-1], dict) and bool(op[-1].get("scene"))
+
+
+def check_history(ctx, ops, tag, quiet_scene=True):
     """run a history on the implementation and test the property text directly on the observed time stamps.  Every
     entity is observed through a freshly fetched handle AND through every handle that was obtained earlier and kept
     (the object a create_* call returned, objects reached through links): the property speaks about the entity,
@@ -1908,6 +1919,12 @@ def check_history(ctx, ops, tag):
                 before = prev or {}
                 auto_before = user_auto
                 clock_before = clock.t
+                if quiet_scene and is_scene(op) and k + 1 < len(ops) and is_scene(ops[k + 1]):
+                    # inside the scene's run of creations: performed, not observed (the last one is)
+                    if sess.apply(op, observe=False)["res"] != "done":
+                        break
+                    n += 1
+                    continue
                 out = sess.apply(op)
                 n += 1
                 if out.get("res") == "done":
